@@ -1,13 +1,181 @@
-import Emboss.Model.Tok
+/-
+C10 — Tokenization is lossless, position-accurate and classifies as documented.
+
+Property theorems only.  Models: Emboss/Model/Regex.lean (Python `re.match` on the
+fragment used), Emboss/Model/Tok.lean (`_tokenize_line`, `tokenize`).  Specs:
+Emboss/Spec/Regex.lean (`Lang`), Emboss/Spec/Tok.lean (`IsBest`, `Covers`, `IndentStep`,
+`FileCover`).  Lemmas: Emboss/Lemmas/{Regex,Tok,TokFile,TokTable}.lean.
+
+Theorems that do not mention `Generated.tokTable` hold for *every* pattern list.
+-/
+import Emboss.Lemmas.TokFile
+import Emboss.Lemmas.TokTable
 import Emboss.Generated.TokTable
 namespace Emboss.Tok
 open Emboss.Regex Emboss.Generated
+
+/-! ## The regex engine model -/
+
+/-- The fuel given to repetitions (input length + 1) is never exhausted. -/
+theorem C10_regex_fuel_sufficient (r : Regex) (s : List Char) : matchLen r s ≠ .fuel :=
+  matchLen_no_fuel r s
+
+/-- … and neither is the fuel of the line loop: `tokenize` never answers "out of fuel". -/
+theorem C10_tokenize_fuel_sufficient (pats : List Pat) (text : List Char) :
+    tokenize pats text ≠ .fuel :=
+  tokLines_no_fuel pats _ _ _
+
+/-- What the backtracking matcher reports is a match of the pattern's language, no
+longer than the input. -/
+theorem C10_regex_sound (r : Regex) (s : List Char) (n : Nat) (h : matchLen r s = .ok n) :
+    n ≤ s.length ∧ Lang r (s.take n) (s.drop n) :=
+  matchLen_sound r s n h
+
+example : matchLen (.seq (.rep (.chr ⟨false, [.range 97 122]⟩) 0 none) (.chr ⟨false, [.range 98 98]⟩))
+    "abbc".toList = .ok 3 := by decide
+
+/-! ## Lossless, position-accurate, longest match (any pattern list) -/
+
+/-- **Structure of every successful tokenization.**  The output is, line by line (line
+numbers 1, 2, …, lines as `str.splitlines` cuts them): the synthetic Indent/Dedent
+tokens, then the tokens of a `Covers` of that line (consecutive non-empty pieces, each
+the longest match at its position with ties to the earlier pattern; pieces without a
+symbol are dropped), then one end-of-line token at column `len + 1`; finally one Dedent
+per open level at `(last line + 1, 1)`. -/
+theorem C10_lossless (pats : List Pat) (text : List Char) (toks : List Token)
+    (h : tokenize pats text = .ok toks) :
+    FileCover pats (splitLines text) 1 ⟨[], []⟩ toks :=
+  tokLines_cover pats _ _ _ _ h
+
+/-- What a cover of one line means, spelled out: the pieces concatenate to the line;
+every token sits on that line, is non-empty, its text is the slice
+`line[sc-1 : ec-1]`, `ec - sc = len(text)`, it ends inside the line; tokens are
+disjoint and in order (each ends no later than the next starts, so start columns
+strictly increase). -/
+theorem C10_lossless_line (pats : List Pat) (ln : Nat) (line : List Char) (segs : List Seg)
+    (h : Covers pats ln line 0 segs) :
+    (segs.map Seg.text).flatten = line ∧
+    (∀ t ∈ tokensOf segs, t.sl = ln ∧ t.el = ln ∧ 1 ≤ t.sc ∧ t.text ≠ [] ∧
+      t.ec = t.sc + t.text.length ∧ t.ec ≤ line.length + 1 ∧
+      t.text = (line.drop (t.sc - 1)).take (t.ec - t.sc)) ∧
+    (tokensOf segs).Pairwise (fun a b => a.ec ≤ b.sc ∧ a.sc < b.sc) := by
+  refine ⟨h.concat, ?_, ?_⟩
+  · intro t ht
+    obtain ⟨h1, h2, h3, h4, h5, h6, h7, _⟩ := h.token_facts t ht
+    exact ⟨h1, h2, by omega, h4, h5, by omega, by simpa using h7⟩
+  · refine List.Pairwise.imp_of_mem ?_ h.ordered
+    intro a b ha _ hab
+    obtain ⟨_, _, _, h4, h5, _⟩ := h.token_facts a ha
+    have : 0 < a.text.length := List.length_pos_iff.mpr h4
+    omega
+
+/-- Every token is the longest match of any pattern at its position, and among
+patterns matching that length it carries the symbol of the earliest. -/
+theorem C10_longest_match (pats : List Pat) (ln : Nat) (line : List Char) (segs : List Seg)
+    (h : Covers pats ln line 0 segs) :
+    ∀ t ∈ tokensOf segs, ∃ pre p post, pats = pre ++ p :: post ∧ p.sym = some t.sym ∧
+      matchLen p.re (line.drop (t.sc - 1)) = .ok t.text.length ∧
+      (∀ q ∈ pre, ∀ m, matchLen q.re (line.drop (t.sc - 1)) = .ok m → m < t.text.length) ∧
+      (∀ q ∈ post, ∀ m, matchLen q.re (line.drop (t.sc - 1)) = .ok m → m ≤ t.text.length) := by
+  intro t ht
+  obtain ⟨_, _, _, _, _, _, _, pre, p, post, h1, h2, h3, h4, h5⟩ := h.token_facts t ht
+  simp only [Nat.sub_zero] at h2 h4 h5
+  exact ⟨pre, p, post, h1, h3, h2, h4, h5⟩
+
+/-- Line numbers: every token's line is between 1 and (number of lines + 1), tokens never
+span lines, and line numbers never decrease along the output. -/
+theorem C10_line_numbers (pats : List Pat) (text : List Char) (toks : List Token)
+    (h : tokenize pats text = .ok toks) :
+    (∀ t ∈ toks, 1 ≤ t.sl ∧ t.sl ≤ 1 + (splitLines text).length ∧ t.el = t.sl) ∧
+      toks.Pairwise (fun a b => a.sl ≤ b.sl) :=
+  (C10_lossless pats text toks h).line_numbers
+
+/-! ## End-of-line tokens -/
+
+/-- Exactly as many end-of-line tokens as lines; the one of line `i` (1-based) is
+`"\n"` at column `len(line) + 1` (zero width). -/
+theorem C10_newlines (pats : List Pat) (hres : ReservedSyms pats) (text : List Char)
+    (toks : List Token) (h : tokenize pats text = .ok toks) :
+    countSym nlSym toks = (splitLines text).length ∧
+    ∀ i (hi : i < (splitLines text).length),
+      (⟨nlSym, ['\n'], i + 1, ((splitLines text)[i]).length + 1, i + 1,
+        ((splitLines text)[i]).length + 1⟩ : Token) ∈ toks := by
+  have hc := C10_lossless pats text toks h
+  refine ⟨(hc.balance hres).2, ?_⟩
+  intro i hi
+  have := hc.newline_mem i hi
+  rw [Nat.add_comm 1 i] at this
+  exact this
+
+/-! ## Indentation -/
+
+/-- Indent and Dedent tokens balance; and at every line boundary the tokens so far have
+`#Indent − #Dedent = stack length − 1`, the stack is a chain of strict prefixes ending in
+the empty string, and the remaining output is again a cover from that state.  (That an
+Indent/Dedent is emitted exactly when a non-comment line's leading whitespace differs
+from the stack top, and that Dedents close exactly the popped levels, is the content of
+`IndentStep` inside `FileCover`; see `C10_indent_step`.) -/
+theorem C10_indent_balanced (pats : List Pat) (hres : ReservedSyms pats) (text : List Char)
+    (toks : List Token) (h : tokenize pats text = .ok toks) :
+    countSym "Indent" toks = countSym "Dedent" toks ∧
+    ∀ l1 l2, splitLines text = l1 ++ l2 →
+      ∃ t1 t2 stm, toks = t1 ++ t2 ∧ FileCover pats l2 (1 + l1.length) stm t2 ∧ stm.Ok ∧
+        countSym "Indent" t1 = countSym "Dedent" t1 + stm.depth := by
+  have hc := C10_lossless pats text toks h
+  refine ⟨by simpa [IStack.depth] using (hc.balance hres).1, ?_⟩
+  intro l1 l2 hl
+  rw [hl] at hc
+  obtain ⟨t1, t2, stm, h1, h2, h3, h4, _⟩ := FileCover.split hres l1 l2 _ _ _ hc
+  exact ⟨t1, t2, stm, h1, h2, h3 (by simp [IStack.Ok, ChainOk]), by simpa [IStack.depth] using h4⟩
+
+/-- One line's effect, spelled out: no synthetic token and no stack change iff the line
+is blank/comment-only or its leading whitespace equals the stack top; otherwise the new
+top is the line's leading whitespace, reached by exactly one Indent (proper extension)
+or by `k ≥ 1` Dedents popping `k` levels none of which equals it. -/
+theorem C10_indent_step (ln : Nat) (line : List Char) (lts : List Token) (st st' : IStack)
+    (synth : List Token) (h : IndentStep ln line lts st synth st') :
+    (synth = [] ↔ (isBlankLine lts = true ∨ leadingWs line = st.top)) ∧
+    (isBlankLine lts = false → st'.top = leadingWs line) ∧
+    (st.Ok → st'.Ok) ∧
+    (∀ t ∈ synth, (t.sym = "Indent" ∨ t.sym = "Dedent") ∧ t.sl = ln) ∧
+    countSym "Indent" synth + st.depth = countSym "Dedent" synth + st'.depth := by
+  refine ⟨?_, h.top, h.chain, ?_, h.balance.1⟩
+  · cases h with
+    | blank hb => simp [hb]
+    | same hb heq => simp [heq]
+    | indent hb hne _ => simp [hb, hne]
+    | dedent popped hb hne hpre heq _ _ =>
+      have : popped ≠ [] := by
+        intro hp; subst hp
+        simp only [List.nil_append, List.cons.injEq] at heq
+        rename_i htop _
+        exact hne (by rw [← htop, heq.1])
+      simp [hb, hne, this]
+  · intro t ht
+    cases h with
+    | blank => simp at ht
+    | same => simp at ht
+    | indent => simp only [List.mem_singleton] at ht; subst ht; exact ⟨.inl rfl, rfl⟩
+    | dedent popped => rw [List.mem_replicate] at ht; rw [ht.2]; exact ⟨.inr rfl, rfl⟩
+
+/-! ## Table-level obligations (re-elaborated whenever the table is regenerated) -/
 
 /-- The token table printed in doc/grammar.md is, row by row, the pattern list the
 tokenizer uses (literals first, then the regexes). -/
 theorem C10_doc_table_is_code_table : docPats = tokTable.pats := by decide +kernel
 
-/-- No repetition in the table has a body that can match the empty string. -/
+/-- No repetition in the table has a body that can match the empty string (so the
+zero-width-iteration corner of sre is never exercised). -/
 theorem C10_table_wf : tokTable.pats.all (fun p => wf p.re) = true := by decide +kernel
+
+/-- No pattern of the table can produce the symbols reserved for the indentation /
+end-of-line logic: the hypotheses of `C10_newlines` / `C10_indent_balanced` hold. -/
+theorem C10_table_reserved_syms : ReservedSyms tokTable.pats := by
+  have : tokTable.pats.all (fun p => p.sym != some "Indent" && p.sym != some "Dedent" &&
+      p.sym != some nlSym) = true := by decide +kernel
+  intro p hp
+  have := List.all_eq_true.mp this p hp
+  simp only [Bool.and_eq_true, bne_iff_ne, ne_eq] at this
+  exact ⟨this.1.1, this.1.2, this.2⟩
 
 end Emboss.Tok
